@@ -13,6 +13,7 @@ import (
 	"sort"
 	"strconv"
 	"strings"
+	"time"
 
 	"golang.org/x/tools/go/ssa"
 )
@@ -26,9 +27,9 @@ type State struct {
 	defers   map[int][]deferred // frame id -> defer stack
 	open     map[loopKey]*openLoop
 	trace    []string
-	panicVal Val // non-nil while panicking (during deferred calls)
-	fdepth   int // number of forks taken on this path (for sharding)
-	mute     bool
+	panicVal Val    // non-nil while panicking (during deferred calls)
+	fdepth   int    // number of forks taken on this path
+	choices  string // branch choices taken so far ("0"/"1" per fork)
 }
 
 type deferred struct {
@@ -48,7 +49,7 @@ type openLoop struct {
 }
 
 func (s *State) clone() *State {
-	n := &State{epoch: s.epoch, allocW: s.allocW, nAlloc: s.nAlloc, panicVal: s.panicVal, fdepth: s.fdepth}
+	n := &State{epoch: s.epoch, allocW: s.allocW, nAlloc: s.nAlloc, panicVal: s.panicVal, fdepth: s.fdepth, choices: s.choices}
 	n.cellv = make(map[*Cell]Val, len(s.cellv))
 	for k, v := range s.cellv {
 		n.cellv[k] = v
@@ -183,8 +184,17 @@ type Exec struct {
 	curFnName   string
 	epochCtr    int
 	instDone    map[string]int
-	shard       int // this worker's shard id
-	shardBits   int // first shardBits forks are partitioned among 2^shardBits workers
+	pruneMs     int64
+	pruneN      int
+	pruned      int
+	combMs      int64
+	combN       int
+	combOK      int
+	shard       int               // this worker's shard id
+	nshards     int               // number of workers (0/1 = no sharding)
+	owners      map[string]uint64 // from the dry pre-pass: which shards own a leaf below each choice prefix
+	dryLeaves   []string          // dry pre-pass: choice strings of all leaves
+	leafCount   map[string]int
 }
 
 func (x *Exec) note(s string) { x.notes[s] = true }
@@ -1068,18 +1078,20 @@ func (x *Exec) fork(st *State, c string, thenK, elseK func(*State)) {
 		}
 		return
 	}
-	// sharding: the first shardBits forks of every path are partitioned
 	takeThen, takeElse := true, true
-	if st.fdepth < x.shardBits {
-		bit := (x.shard >> uint(st.fdepth)) & 1
-		takeThen, takeElse = bit == 0, bit == 1
+	if x.nshards > 1 {
+		bit := uint64(1) << uint(x.shard)
+		takeThen = x.owners[st.choices+"0"]&bit != 0
+		takeElse = x.owners[st.choices+"1"]&bit != 0
 	}
 	st.fdepth++
 	st2 := st.clone()
+	st.choices += "0"
+	st2.choices += "1"
 	if takeThen {
 		x.sess.Push()
 		x.assume(c)
-		if !x.pruneCheck() {
+		if !x.pruneCheck(st) {
 			thenK(st)
 		}
 		x.sess.Pop()
@@ -1087,30 +1099,56 @@ func (x *Exec) fork(st *State, c string, thenK, elseK func(*State)) {
 	if takeElse {
 		x.sess.Push()
 		x.assume(sNot(c))
-		if !x.pruneCheck() {
+		if !x.pruneCheck(st2) {
 			elseK(st2)
 		}
 		x.sess.Pop()
 	}
 }
 
+// leaf records the end of a path (dry pre-pass).
+func (x *Exec) leaf(st *State) {
+	if x.sess.dry {
+		x.dryLeaves = append(x.dryLeaves, st.choices)
+	}
+}
+
 // pruneCheck reports whether the current path condition is (quickly shown)
 // unsatisfiable. Only used to cut exploration; never to discharge anything
 // that would otherwise fail (an infeasible path has no obligations).
-func (x *Exec) pruneCheck() bool {
+func (x *Exec) pruneCheck(st *State) bool {
 	if x.paths < 12 {
 		return false
 	}
-	return x.sess.CheckSat() == "unsat"
+	if x.nshards > 1 && x.leafCount[st.choices] < 6 {
+		return false
+	}
+	t0 := time.Now()
+	r := x.sess.CheckSatT(40)
+	x.pruneMs += time.Since(t0).Milliseconds()
+	x.pruneN++
+	if r == "unsat" {
+		x.pruned++
+	}
+	return r == "unsat"
 }
 
 // owns reports whether this shard is responsible for obligations at the
-// current point of the path (exactly one shard is, for every point).
+// current point of the path: the lowest-numbered shard owning a leaf below.
 func (x *Exec) owns(st *State) bool {
-	if x.shardBits == 0 || st.fdepth >= x.shardBits {
+	if x.nshards <= 1 {
 		return true
 	}
-	return x.shard>>uint(st.fdepth) == 0
+	m := x.owners[st.choices]
+	if m == 0 {
+		return x.shard == 0
+	}
+	for i := 0; i < x.nshards; i++ {
+		if m&(1<<uint(i)) != 0 {
+			return i == x.shard
+		}
+	}
+	return false
 }
 
 func (x *Exec) doAlloc(st *State, fr *Frame, in *ssa.Alloc) {
@@ -1407,25 +1445,37 @@ func smtIntLit(t string) (int64, bool) {
 	return n, err == nil
 }
 
-// bitop: bitwise operations through 64-bit vectors (int2bv bridges are slow;
-// used only where the code has them).
+// bitop: bitwise and/or/xor as uninterpreted functions constrained by the
+// sign and magnitude facts that hold for two's-complement integers of any
+// width (sound, not complete). int2bv bridges are avoided: no installed
+// solver decides them in useful time.
 func (x *Exec) bitop(op token.Token, a, b Int, t types.Type) Val {
-	name := map[token.Token]string{token.AND: "bvand", token.OR: "bvor", token.XOR: "bvxor"}[op]
+	name := map[token.Token]string{token.AND: "bitand", token.OR: "bitor", token.XOR: "bitxor"}[op]
 	if name == "" {
 		x.note("and-not abstracted")
 		return x.mkFresh(t, "andnot")
 	}
-	x.note("bitwise " + name + " modelled through 64-bit int2bv/bv2int bridge")
-	bt, ok := t.Underlying().(*types.Basic)
-	signed := true
-	if ok {
-		_, signed = intWidth(bt)
+	if !x.declared[name] {
+		x.declared[name] = true
+		x.sess.Decl("(declare-fun " + name + " (Int Int) Int)")
 	}
-	raw := "(bv2nat (" + name + " ((_ int2bv 64) " + a.T + ") ((_ int2bv 64) " + b.T + ")))"
-	if signed {
-		return Int{"(ite (>= " + raw + " 9223372036854775808) (- " + raw + " 18446744073709551616) " + raw + ")"}
+	x.note("bitwise " + name + " modelled by sign/magnitude facts (uninterpreted otherwise)")
+	r := "(" + name + " " + a.T + " " + b.T + ")"
+	switch op {
+	case token.OR:
+		x.assume("(=> (or (< " + a.T + " 0) (< " + b.T + " 0)) (< " + r + " 0))")
+		x.assume("(=> (< " + a.T + " 0) (>= " + r + " " + a.T + "))")
+		x.assume("(=> (< " + b.T + " 0) (>= " + r + " " + b.T + "))")
+		x.assume("(=> (and (>= " + a.T + " 0) (>= " + b.T + " 0)) (and (>= " + r + " " + a.T + ") (>= " + r + " " + b.T + ") (<= " + r + " (+ " + a.T + " " + b.T + "))))")
+	case token.AND:
+		x.assume("(=> (or (>= " + a.T + " 0) (>= " + b.T + " 0)) (>= " + r + " 0))")
+		x.assume("(=> (>= " + a.T + " 0) (<= " + r + " " + a.T + "))")
+		x.assume("(=> (>= " + b.T + " 0) (<= " + r + " " + b.T + "))")
+		x.assume("(=> (and (< " + a.T + " 0) (< " + b.T + " 0)) (< " + r + " 0))")
+	case token.XOR:
+		x.assume("(=> (and (>= " + a.T + " 0) (>= " + b.T + " 0)) (and (>= " + r + " 0) (<= " + r + " (+ " + a.T + " " + b.T + "))))")
 	}
-	return Int{raw}
+	return Int{r}
 }
 
 func (x *Exec) concat(st *State, a, b Str) Val {
